@@ -169,6 +169,18 @@ func descriptorShapes() []shapeCase {
 		s2 := &spec.Service{Name: "OtherService", BasePath: spec.S("/o"), Methods: []*spec.Method{{Name: "Op0", In: "." + pkg + ".Shared", Out: "." + pkg + ".Shared", HTTP: &spec.HTTP{Path: "/op0", Verb: 2}}}}
 		return &spec.File{Messages: []*spec.Message{plain("Shared")}, Services: []*spec.Service{s, s2}}
 	})
+	for _, ns := range []int{2, 3, 9} {
+		ns := ns
+		mk(fmt.Sprintf("services-per-file/%d", ns), func(pkg string) *spec.File {
+			f := &spec.File{Messages: []*spec.Message{plain("Req"), plain("Resp")}}
+			for i := 0; i < ns; i++ {
+				f.Services = append(f.Services, &spec.Service{Name: fmt.Sprintf("Svc%dService", i), BasePath: spec.S(fmt.Sprintf("/s%d", i)), Methods: []*spec.Method{
+					{Name: fmt.Sprintf("Get%d", i), In: "." + pkg + ".Req", Out: "." + pkg + ".Resp", HTTP: &spec.HTTP{Path: "/items/{id}", Verb: 1}},
+					{Name: fmt.Sprintf("Put%d", i), In: "." + pkg + ".Req", Out: "." + pkg + ".Resp", HTTP: &spec.HTTP{Path: "/items/{id}", Verb: 3}}}})
+			}
+			return f
+		})
+	}
 	mk("long-names", func(pkg string) *spec.File {
 		long := "Very" + strings.Repeat("LongName", 24)
 		lf := "very_" + strings.Repeat("long_field_", 18) + "x"
@@ -359,6 +371,7 @@ func c16(c *Ctx) {
 		sc    shapeCase
 		p     string
 		param string
+		env   string // "" or an environment setting of the plugin process (single-CPU runner)
 	}
 	var jobs, heavy []job
 	textIdx := 0
@@ -392,11 +405,22 @@ func c16(c *Ctx) {
 				params = []string{"Mc16/nogopkg.proto=lab/gen/c16m;c16m"}
 			}
 			for _, pa := range params {
-				j := job{sc, p, pa}
+				j := job{sc, p, pa, ""}
 				if p == "go-http" && strings.Contains(pa, "mock") {
 					heavy = append(heavy, j)
 				} else {
 					jobs = append(jobs, j)
+				}
+			}
+			// the same shapes on a single-CPU runner (structural shapes; the text catalogue varies strings only)
+			if !strings.HasPrefix(sc.ID, "text/") && !strings.HasPrefix(sc.ID, "misuse/") && !sc.Heavy {
+				pa := ""
+				if sc.ID == "no-go-package" {
+					pa = params[0]
+				}
+				jobs = append(jobs, job{sc, p, pa, "GOMAXPROCS=1"})
+				if p == "openapiv3" && sc.ID != "no-go-package" {
+					jobs = append(jobs, job{sc, p, "format=json", "GOMAXPROCS=1"})
 				}
 			}
 		}
@@ -408,6 +432,9 @@ func c16(c *Ctx) {
 		caseID := fmt.Sprintf("terminate/%s/%s/param=%s", j.sc.ID, j.p, strings.SplitN(j.param, "=", 2)[0])
 		if j.param != "" && (strings.HasPrefix(j.param, "format=") || strings.HasPrefix(j.param, "generate_mock")) {
 			caseID = fmt.Sprintf("terminate/%s/%s/param=%s", j.sc.ID, j.p, j.param)
+		}
+		if j.env != "" {
+			caseID += "/env=" + j.env
 		}
 		if !c.Want(caseID) {
 			return
@@ -421,11 +448,14 @@ func c16(c *Ctx) {
 		if alone {
 			opt.MemKB = 2 * 1024 * 1024 // mock generation: ordinary runs need tens of MB
 		}
+		if j.env != "" {
+			opt.Env = []string{j.env}
+		}
 		res := c.TB.Run(j.p, req, opt)
 		c.R.Eval(1)
 		if res.Crash == "timeout" {
 			// re-run alone with 4x the limit
-			res = c.TB.Run(j.p, req, plugin.RunOpt{Timeout: 120 * time.Second})
+			res = c.TB.Run(j.p, req, plugin.RunOpt{Timeout: 120 * time.Second, Env: opt.Env})
 			c.R.Eval(1)
 			c.R.Count("watchdog_reruns", 1)
 		}
@@ -443,7 +473,7 @@ func c16(c *Ctx) {
 			}
 			protos = append(protos, pr)
 		}
-		rp := map[string]any{"protos": protos, "plugin": j.p, "parameter": j.param, "exit": res.Exit, "crash": res.Crash, "stderr": res.Stderr, "wall_ms": res.Wall.Milliseconds(), "maxrss_kb": res.MaxRSSKB}
+		rp := map[string]any{"protos": protos, "plugin": j.p, "parameter": j.param, "env": j.env, "exit": res.Exit, "crash": res.Crash, "stderr": res.Stderr, "wall_ms": res.Wall.Milliseconds(), "maxrss_kb": res.MaxRSSKB}
 		if res.Crash != "" {
 			c.R.Violate(caseID, res.Crash, firstLines(res.Stderr, 1), rp)
 			return
